@@ -90,7 +90,7 @@ func (m *Model) mayDemoteRec(f *ssa.Function, spec map[string]bool, onStack map[
 			continue
 		}
 		for _, in := range b.Instrs {
-			if val, isConst, ok := m.claimStore(in); ok && (!isConst || !val) && f != m.Ctor {
+			if val, isConst, ok := m.claimStore(in); ok && (!isConst || !val) && !m.isCtorCode(f) {
 				// claim cleared here: a no-op only if a claim load made under the same
 				// write-lock hold was false on every path to this block
 				noop := false
